@@ -37,6 +37,8 @@ ASSUMPTIONS = ["the (ck, ns) tWR entries of litedram/modules.py are the datashee
                "DDR2 has no CWL register field: derived WL = AL + CL - 1 must not exceed phy.cwl (a larger phy.cwl only makes the controller wait longer)",
                "RPC DRAM excluded (no JEDEC reference)", "the RCD control words / electrical settings are checked for field integrity only"]
 
+REQUIRED_CLASSES = ["RDIMM", "clam-shell", "WR at a table boundary", "CL/CWL from PHY-specific table or user",
+                    "DDR3 PHY-selected cl=6 cwl=5", "DDR4 PHY-selected cl=9 cwl=9", "LPDDR4 PHY-selected cl=6 cwl=4", "LPDDR5 PHY-selected cl=6 cwl=4"]      # classes that must occur in every run (else harness error: vacuous generator)
 REPO = os.environ.get("VERIF_REPO", "/repo")
 HAS_WR = ("DDR2", "DDR3", "DDR4", "LPDDR4", "LPDDR5")
 HAS_CWL_FIELD = ("DDR3", "DDR4", "LPDDR4", "LPDDR5")
@@ -719,7 +721,10 @@ def evaluate(case):
     nontrivial = rdimm or clam or V["table"] == "phy" or case.get("cl") is not None or case.get("cwl") is not None
     if V["table"] == "phy" or case.get("cl") is not None or case.get("cwl") is not None:
         classes.append("CL/CWL from PHY-specific table or user")
-    classes.append("%s cl=%s cwl=%s" % (memtype, phy.cl, phy.cwl if memtype in HAS_CWL_FIELD or memtype == "DDR2" else "-"))
+    if case.get("cl") is None and case.get("cwl") is None:
+        classes.append("%s PHY-selected cl=%s cwl=%s" % (memtype, phy.cl, phy.cwl if memtype in HAS_CWL_FIELD or memtype == "DDR2" else "-"))
+    else:
+        classes.append("%s user cl/cwl override" % memtype)
     if memtype in HAS_WR and st["wr"] is not None:
         wr = st["wr"]
         sgk = None if sg == "default" and not hasattr(cls, "speedgrade_timings") else sg
@@ -734,7 +739,11 @@ def evaluate(case):
         if timing.tCCD is not None:
             budget = (math.ceil(phy.cwl / n) + timing.tWR + timing.tCCD) * n - (phy.cwl + burst_ck)
         classes.append("%s WR=%d" % (memtype, wr))
-        if wr * tck < e[1] - ds.TOL_NS or wr < e[0]:
+        if need_ck > table[-1]:
+            # no encodable write-recovery value covers tWR at this clock: the clock is beyond the speed bins of the memory type, no correct
+            # programming exists and the property has nothing to say (counted, not judged)
+            classes.append("%s tWR not encodable at this clock (beyond speed bins)" % memtype)
+        elif wr * tck < e[1] - ds.TOL_NS or wr < e[0]:
             F("C17.wr_too_short", memtype, "write recovery programmed WR=%d clocks = %.3f ns < datasheet tWR %s ns / %s ck (needs %d clocks) : %s %s %s at %.6f MHz, tck %.4f ns, tWR=%d tWTR=%d controller cycles"
               % (wr, float(wr * tck), float(e[1]), e[0], need_ck, case["phy"], case["module"], sg, clk / 1e6, float(tck), timing.tWR, timing.tWTR))
             classes.append("%s WR too short" % memtype)
@@ -924,17 +933,19 @@ def minimise(case, fs, col):
             steps.append(dict(el=dict((a, b) for a, b in case["el"].items() if a != k)))
     for unit in (50e6, 10e6, 5e6, 1e6, 1e5, 1e4, 1e3):
         steps.append(dict(clk=float(round(case["clk"] / unit) * unit)))
+    clk_done = False
     for st_ in steps:
         cand = dict(best)
         cand.update(st_)
-        if cand == best or (cand.get("el") is not None and len(cand["el"]) <= 1):
+        if cand == best or (cand.get("el") is not None and len(cand["el"]) <= 1) or ("clk" in st_ and clk_done):
             continue
         try:
             f2 = _same(col.filter(evaluate(cand)[0]), clause, key)
-        except Exception:
+        except (HarnessError,) + REJECT:
             continue
         if f2:
             best, best_fs = cand, f2
+            clk_done = clk_done or "clk" in st_          # the coarsest round clock that still fails
     return best, best_fs
 
 
